@@ -43,11 +43,12 @@ type vpC02Scn struct {
 	Garbage     []byte
 	Plan        []int
 	R2Body      bool
+	Proto10     bool // R1 is an HTTP/1.0 request with Connection: keep-alive
 }
 
 func (s vpC02Scn) String() string {
-	return fmt.Sprintf("stream=%v rmu=%v maxbody=%d chunked=%v pad=%d tail=%d chunks=%v handler=%s readn=%d expect=%q continueH=%q expectH=%q code=%d garbage=%q plan=%v r2body=%v",
-		s.Stream, s.RMU, s.MaxBody, s.Chunked, s.Pad, s.Tail, s.ChunkAt, s.Handler, s.ReadN, s.Expect, s.ContinueH, s.ExpectH, s.ExpectCode, s.Garbage, s.Plan, s.R2Body)
+	return fmt.Sprintf("stream=%v rmu=%v maxbody=%d chunked=%v pad=%d tail=%d chunks=%v handler=%s readn=%d expect=%q continueH=%q expectH=%q code=%d garbage=%q plan=%v r2body=%v http10=%v",
+		s.Stream, s.RMU, s.MaxBody, s.Chunked, s.Pad, s.Tail, s.ChunkAt, s.Handler, s.ReadN, s.Expect, s.ContinueH, s.ExpectH, s.ExpectCode, s.Garbage, s.Plan, s.R2Body, s.Proto10)
 }
 
 type vpC02Result struct {
@@ -124,7 +125,11 @@ func vpC02Run(s vpC02Scn) vpC02Result {
 		srv.ExpectHandler = func(ctx *RequestCtx) int { return code }
 	}
 	var head bytes.Buffer
-	head.WriteString("POST /r1 HTTP/1.1\r\nHost: h\r\n")
+	if s.Proto10 {
+		head.WriteString("POST /r1 HTTP/1.0\r\nHost: h\r\nConnection: keep-alive\r\n")
+	} else {
+		head.WriteString("POST /r1 HTTP/1.1\r\nHost: h\r\n")
+	}
 	var wire []byte
 	if s.Chunked {
 		head.WriteString("Transfer-Encoding: chunked\r\n")
@@ -162,7 +167,7 @@ func vpC02Run(s vpC02Scn) vpC02Result {
 		// wait for an interim or final response head
 		w.WaitOut(20*time.Second, func(out []byte) bool { return bytes.Contains(out, []byte("\r\n\r\n")) })
 		out := w.Out()
-		if bytes.HasPrefix(out, []byte("HTTP/1.1 100")) {
+		if bytes.HasPrefix(out, []byte("HTTP/1.1 100")) || bytes.HasPrefix(out, []byte("HTTP/1.0 100")) {
 			w.Feed(wire)
 			res.BodySent = true
 		}
@@ -326,6 +331,7 @@ func vpC02Gen(t *rapid.T) vpC02Scn {
 		s.Garbage = []byte(rapid.SampledFrom([]string{"xx", "\r\n", "GET /smuggled HTTP/1.1\r\n"}).Draw(t, "garbagev"))
 	}
 	s.R2Body = rapid.Bool().Draw(t, "r2body")
+	s.Proto10 = rapid.IntRange(0, 4).Draw(t, "http10") == 0
 	s.Plan = vpGenSplit(t, total, nil)
 	return s
 }
@@ -368,6 +374,9 @@ func TestVP_C02_UnreadBodies(t *testing.T) {
 		unread := s.Handler == "ignore" || (s.Handler == "readn" && s.ReadN < total)
 		rejected := s.Expect != "" && (s.ContinueH == "reject" || s.ExpectH == "reject")
 		class := fmt.Sprintf("stream=%v/chunked=%v/", s.Stream, s.Chunked)
+		if s.Proto10 {
+			class = "http10/" + class
+		}
 		switch {
 		case rejected:
 			class += "expect-rejected-" + s.Expect
